@@ -17,6 +17,8 @@ use ckc_rs::cards::six::Six;
 use ckc_rs::cards::three::Three;
 use ckc_rs::cards::two::Two;
 use ckc_rs::cards::{HandValidator, Permutator};
+#[allow(unused_imports)]
+use crate::model;
 
 #[derive(Clone, Copy)]
 enum C {
@@ -315,9 +317,12 @@ fn unique_word(counter: &mut u32, rng: &mut Rng) -> u32 {
 /// that searches by value, is invisible to histories whose words are all different. The array model
 /// comparison stays exact; only the localisation of a fault is less direct than with unique words.
 fn pooled_history(n: usize, len: usize, rng: &mut Rng) -> Vec<Op> {
-    const POOL: [u32; 8] = [0, 1, 0x10008C29, 0x08004B25, 0x00011002, 0x00012002, 0xFFFF_FFFF, 0x30008C29];
-    let pool = 2 + rng.below(7) as usize; // sometimes only {0, 1}
-    let mut pick = |rng: &mut Rng| POOL[rng.below(pool as u64) as usize];
+    const POOL_A: [u32; 8] = [0, 1, 0x10008C29, 0x08004B25, 0x00011002, 0x00012002, 0xFFFF_FFFF, 0x30008C29];
+    // the hearts wheel, the spades royal flush cards and two deuces: structured real hands arise in every slot order
+    const POOL_B: [u32; 12] = [0x10004C29, 0x00084307, 0x00044205, 0x00024103, 0x00014002, 0x10008C29, 0x08008B25, 0x04008A1F, 0x0200891D, 0x01008817, 0x00018002, 0x00011002];
+    let use_b = rng.chance(1, 2);
+    let pool = if use_b { 5 + rng.below(8) as usize } else { 2 + rng.below(7) as usize }; // sometimes only {0, 1}
+    let mut pick = |rng: &mut Rng| if use_b { POOL_B[rng.below(pool as u64) as usize] } else { POOL_A[rng.below(pool as u64) as usize] };
     let mut ops = Vec::with_capacity(len);
     let w: Vec<u32> = (0..n).map(|_| pick(rng)).collect();
     ops.push(Op::New(rng.below(ctor_forms(n) as u64) as usize, w));
@@ -455,6 +460,116 @@ pub fn run(ctx: &Ctx) -> Rep {
         rep.merge(st.rep);
         merge_x(&mut rep, vec![x], false);
     }
+    // ---- real card words ---------------------------------------------------------------------------------
+    // The property quantifies over arbitrary words, and real cards are the words a "helpful" constructor or
+    // selector is most likely to treat specially (normalise, sort, de-duplicate). (a) every five-card hand of
+    // the deck through Five::new / From / default+setters in descending, ascending and one seeded slot order,
+    // read back slot by slot; (b) for a class-covering set of six- and seven-card hands (one per strength class,
+    // every 2nd class in quick), every in-range index tuple of five_from_permutation; (c) the composite
+    // constructors on the same hands.
+    {
+        let m = crate::model::Model::build();
+        let s5 = crate::drive::par_subsets::<5, X, _, _>(ctx, if ctx.smoke() { 331 } else { 1 }, mk, |st, c, _| {
+            let mut w = crate::props::words_of(c);
+            w.sort_unstable_by(|a, b| b.cmp(a));
+            let mut rng = Rng::new(seed, crate::drive::hand_code(c) ^ 0x1919);
+            let mut shuffled = w;
+            rng.shuffle(&mut shuffled);
+            let mut asc = w;
+            asc.reverse();
+            for arr in [w, asc, shuffled] {
+                for f in 0..3 {
+                    let cc = construct(5, f, &arr);
+                    st.rep.evaluations += 1;
+                    if cc.arr() != arr || (0..5).any(|s| cc.get(s) != arr[s]) {
+                        st.rep.violation(
+                            "constructing from given words and reading back returns the given words in the given slots",
+                            CTOR_NAMES[5][f],
+                            Input::Ops(vec!["n5".into(), Op::New(f, arr.to_vec()).encode()]),
+                            format!("{:08X?}", arr),
+                            format!("{:08X?}", cc.arr()),
+                        );
+                    }
+                }
+            }
+            st.rep.distinct += 1;
+            st.rep.add("five_card_hands_constructed_and_read_back", 1);
+        });
+        let (r5, _) = merge_states(s5);
+        rep.merge(r5);
+
+        let every = ctx.pick(97, 2, 1) as usize;
+        let classes: Vec<usize> = (1..=m.distinct_keys).filter(|o| o % every == (seed as usize) % every).collect();
+        let sc = par_run(ctx, classes.len(), mk, |st, ci| {
+            let o = classes[ci];
+            let mut rng = Rng::new(seed, 0xC19_5000 + o as u64);
+            let mut cards: Vec<u8> = m.representative[o].to_vec();
+            while cards.len() < 7 {
+                let x = rng.below(52) as u8;
+                if !cards.contains(&x) {
+                    cards.push(x);
+                }
+            }
+            let mut w: Vec<u32> = cards.iter().map(|&i| crate::model::word(i)).collect();
+            for arrangement in 0..2 {
+                if arrangement == 1 {
+                    rng.shuffle(&mut w);
+                }
+                for n in [6usize, 7] {
+                    let h = &w[..n];
+                    // composite constructors and plain ones
+                    for f in 0..ctor_forms(n) {
+                        let cc = construct(n, f, h);
+                        st.rep.evaluations += 1;
+                        if cc.arr() != h {
+                            st.rep.violation(
+                                "constructing from given words and reading back returns the given words in the given slots",
+                                CTOR_NAMES[n][f],
+                                Input::Ops(vec![format!("n{}", n), Op::New(f, h.to_vec()).encode()]),
+                                format!("{:08X?}", h),
+                                format!("{:08X?}", cc.arr()),
+                            );
+                        }
+                    }
+                    // every in-range index tuple
+                    let total = (n as u64).pow(5);
+                    for mut code in 0..total {
+                        let mut p = [0u8; 5];
+                        for k in 0..5 {
+                            p[k] = (code % n as u64) as u8;
+                            code /= n as u64;
+                        }
+                        let got = if n == 6 {
+                            Six::from([h[0], h[1], h[2], h[3], h[4], h[5]]).five_from_permutation(p).to_arr()
+                        } else {
+                            Seven::from([h[0], h[1], h[2], h[3], h[4], h[5], h[6]]).five_from_permutation(p).to_arr()
+                        };
+                        st.rep.evaluations += 1;
+                        st.x.tuples += 1;
+                        let want = [h[p[0] as usize], h[p[1] as usize], h[p[2] as usize], h[p[3] as usize], h[p[4] as usize]];
+                        if got != want {
+                            st.rep.violation(
+                                "slot-index selection returns the given words of the selected slots, in the given order",
+                                if n == 6 { "Six::five_from_permutation" } else { "Seven::five_from_permutation" },
+                                Input::Ops(vec![
+                                    format!("n{}", n),
+                                    format!("W:{}", h.iter().map(|x| format!("{:x}", x)).collect::<Vec<_>>().join(".")),
+                                    format!("P:{}", p.iter().map(|x| x.to_string()).collect::<Vec<_>>().join(".")),
+                                ]),
+                                format!("{:08X?}", want),
+                                format!("{:08X?}", got),
+                            );
+                        }
+                    }
+                }
+            }
+            st.rep.add("real_card_containers_with_every_index_tuple", 4);
+        });
+        let (rc, xc) = merge_states(sc);
+        rep.merge(rc);
+        merge_x(&mut rep, xc, false);
+    }
+
     // ---- seeded histories ------------------------------------------------------------------------------
     let n_hist = ctx.pick(200, 200_000, 5_000_000) as usize;
     let chunks = 64usize;
